@@ -18,10 +18,13 @@
  */
 extern int mpt_parse_option(const MPT_STRUCT(parser_format) *fmt, MPT_STRUCT(parser_context) *parse, MPT_STRUCT(path) *path)
 {
-	int curr;
+	int curr, named;
 	
-	/* get next visible character, no save */
-	if ((curr = mpt_parse_nextvis(&parse->src, fmt->com, sizeof(fmt->com))) < 0) {
+	/* name started by caller: following white space belongs to it */
+	named = parse->valid && !fmt->ostart;
+	/* get next (visible) character */
+	if ((curr = named ? mpt_parse_getchar(&parse->src, path)
+	                  : mpt_parse_nextvis(&parse->src, fmt->com, sizeof(fmt->com))) < 0) {
 		parse->curr = parse->valid ? (MPT_PARSEFLAG(Option) | MPT_PARSEFLAG(Name)) : MPT_PARSEFLAG(Option);
 		if (curr != -2) {
 			return MPT_ERROR(BadArgument);
@@ -32,7 +35,7 @@ extern int mpt_parse_option(const MPT_STRUCT(parser_format) *fmt, MPT_STRUCT(par
 		parse->curr = MPT_PARSEFLAG(Option) | MPT_PARSEFLAG(Name);
 		return MPT_ERROR(BadValue);
 	}
-	if (mpt_path_addchar(path, curr) < 0) {
+	if (!named && mpt_path_addchar(path, curr) < 0) {
 		parse->curr = MPT_PARSEFLAG(Option) | MPT_PARSEFLAG(Name);
 		return MPT_ERROR(MissingBuffer);
 	}
